@@ -25,7 +25,7 @@ def run(chk):
                        'round trip are lemmas over the table and the two contracts.  A native enumeration of -50..150 and all labels '
                        're-checks the same contracts on the real functions (tier B, redundant cross-check of the engine).')
     chk.trust('spec/confidence.json as a faithful copy of STIX 2.1 Appendix A')
-    chk.assume('inputs are Python ints (value_to_*) and strs (*_to_value), as the property quantifies; other argument types are outside the contract')
+    chk.assume('the contracts quantify over Python ints (value_to_*) and strs (*_to_value); arguments of other kinds are covered by a bounded refusal check only')
     contracts = []
     for scale in K.SCALES:
         contracts += [K.to_label_contract(scale), K.to_value_contract(scale)]
@@ -43,6 +43,38 @@ def run(chk):
             if bad:
                 return (f'{c.name}#native', f'{c.name}({args}) -> {out[0]} {out[1]!r} violates {bad}', {'input': args, 'outcome': repr(out)})
         chk.bounded(f'native:{c.name}', native_domain(c), check, classify=lambda a: repr(a), bound='ints -50..150 plus 3 huge; every label of every scale plus 13 near-miss strings')
+    # arguments of other kinds are refused, however they print: "unknown labels are refused" does not depend on str() of the argument (positional and keyword calls alike)
+    import stix2.confidence.scales as SC
+    class Prints:
+        def __init__(s, t): s.t = t
+        def __str__(s): return s.t
+        __repr__ = __str__
+    def odd_cases():
+        for scale, sc in K.SCALES.items():
+            fn = getattr(SC, K.to_value_contract(scale).target.split('::')[1])
+            labels = [r[2] for r in sc['rows']]
+            for v in [None, 0, 5, 1.0, True, False, b'Low', ['Low'], ('Low',), {'Low'}] + [Prints(l) for l in labels[:3]] + [l.encode() for l in labels[:2]]:
+                yield (scale, fn, v)
+    def odd_check(case):
+        scale, fn, v = case
+        for how, call in (('positional', lambda: fn(v)), ('keyword', lambda: fn(scale_value=v))):
+            try: r = call()
+            except ValueError: continue
+            except Exception as ex: return (f'{scale}#non-string argument refused with ValueError', f'{fn.__name__}({v!r}) ({how}) raised {type(ex).__name__}: {ex}', {})
+            return (f'{scale}#non-string argument refused with ValueError', f'{fn.__name__}({v!r}) ({how}) returned {r!r}: an argument that is not a label string was accepted', {'input': repr(v)})
+    chk.bounded('label -> value: arguments that are not strings', list(odd_cases()), odd_check, classify=lambda c: (c[0], repr(c[2])), bound='5 scales x 15 non-string arguments (None, numbers, booleans, bytes, containers, objects printing like a label), positional and keyword')
+    def kw_cases():
+        for scale in K.SCALES:
+            fn = getattr(SC, K.to_label_contract(scale).target.split('::')[1])
+            for v in (-300, -21, -11, -1, 101, 150, 400, 10**30): yield (scale, fn, v)
+    def kw_check(case):
+        scale, fn, v = case
+        for how, call in (('positional', lambda: fn(v)), ('keyword', lambda: fn(confidence_value=v))):
+            try: r = call()
+            except ValueError: continue
+            except Exception as ex: return (f'{scale}#out-of-range value refused with ValueError', f'{fn.__name__}({v}) ({how}) raised {type(ex).__name__}', {})
+            return (f'{scale}#out-of-range value refused with ValueError', f'{fn.__name__}({v}) ({how}) returned {r!r}', {})
+    chk.bounded('value -> label: out-of-range values by position and by keyword', list(kw_cases()), kw_check, classify=lambda c: (c[0], c[2]), bound='5 scales x 8 out-of-range integers x 2 call forms')
     if chk.tier == 'thorough':
         mod = importlib.import_module('stix2.confidence.scales')
         results = []
